@@ -102,6 +102,13 @@ fn boundary_labels() -> Vec<MLabel> {
         v.push(MLabel::Text(format!("{}b", "a".repeat(n - 1))));
         v.push(MLabel::Text(format!("b{}", "a".repeat(n - 1))));
     }
+    // equal-length texts that share a long prefix and differ in their last or a middle byte (a
+    // comparison that looks at a bounded window of the encoding sees them as equal)
+    for n in [7usize, 8, 9, 14, 15, 16, 17, 29, 30, 31, 32, 33, 62, 63, 64, 65, 127, 128] {
+        v.push(MLabel::Text(format!("{}a", "p".repeat(n))));
+        v.push(MLabel::Text(format!("{}b", "p".repeat(n))));
+        v.push(MLabel::Text(format!("{}c{}", "p".repeat(n / 2), "p".repeat(n - n / 2))));
+    }
     // multi-byte characters: byte length differs from char count
     v.push(MLabel::Text("\u{e9}".repeat(12))); // 24 bytes, 12 chars
     v.push(MLabel::Text("\u{e9}".repeat(11))); // 22 bytes
@@ -316,6 +323,25 @@ impl Check for C16 {
                         if !all_found || e != distinct {
                             ctx.violation("C16/btreeset-order-or-membership", format!("BTreeSet<Label> iteration differs from encoded order or loses members ({} vs {} elements, all found: {})", e.len(), distinct.len(), all_found), J::Null);
                         }
+                        // the same labels as the parameters of a key: canonicalize must sort them into
+                        // either standard order (labels 0-5 are the typed fields' and stay out)
+                        for (ordering, name) in [(coset::CborOrdering::Lexicographic, "Lexicographic"), (coset::CborOrdering::LengthFirstLexicographic, "LengthFirstLexicographic")] {
+                            let mut seen = std::collections::HashSet::new();
+                            let params: Vec<(coset::Label, coset::cbor::value::Value)> = labels.iter().filter(|l| !matches!(l, coset::Label::Int(i) if (0..=5).contains(i))).filter(|l| seen.insert(to_enc(l))).map(|l| (l.clone(), coset::cbor::value::Value::Null)).collect();
+                            let mut key = coset::CoseKey { kty: coset::KeyType::Assigned(coset::iana::KeyType::Symmetric), params, ..Default::default() };
+                            let lens = matches!(ordering, coset::CborOrdering::LengthFirstLexicographic);
+                            ctx.eval();
+                            if guard(|| key.canonicalize(ordering)).is_err() {
+                                ctx.violation("C16/canonicalize-panicked", format!("CoseKey::canonicalize({}) panicked on the boundary label set", name), J::Null);
+                                continue;
+                            }
+                            let encs: Vec<Vec<u8>> = key.params.iter().map(|(l, _)| to_enc(l)).collect();
+                            let ok = encs.windows(2).all(|w| if lens { (w[0].len(), &w[0]) < (w[1].len(), &w[1]) } else { w[0] < w[1] });
+                            if !ok {
+                                let bad = encs.windows(2).find(|w| if lens { (w[0].len(), &w[0]) >= (w[1].len(), &w[1]) } else { w[0] >= w[1] }).map(|w| format!("{} before {}", hex(&w[0][..w[0].len().min(40)]), hex(&w[1][..w[1].len().min(40)]))).unwrap_or_default();
+                                ctx.violation(&format!("C16/canonicalize-does-not-sort/{}", name), format!("sorting map keys with the label order ({}) leaves them out of order: {}", name, bad), J::Null);
+                            }
+                        }
                         let s: Vec<Vec<u8>> = sorted.iter().map(to_enc).collect();
                         if !s.windows(2).all(|w| (w[0].len(), &w[0]) <= (w[1].len(), &w[1])) {
                             ctx.violation("C16/sort-by-cmp_canonical-not-length-first", "sorting with cmp_canonical does not yield length-first order".into(), J::Null);
@@ -327,7 +353,7 @@ impl Check for C16 {
         }
     }
     fn rule(&self) -> String {
-        "boundary label set (integers at every encoding-length boundary of both signs up to the 64-bit extremes; texts of byte length 0,1,2,22-25,255-257 with first/last byte variations and multi-byte characters whose byte length differs from their char count): all ordered pairs and all triples; random pairs/triples; for the eight registry label instantiations every registered value, private-use values down to i64::MIN and texts, obtained by decoding, all pairs; BTreeSet and sort_by container monitors. Oracle: cmp == bytewise comparison of independently produced deterministic encodings; cmp_canonical == (length, bytes) comparison; == iff cmp is Equal iff encodings equal; antisymmetry; transitivity; partial_cmp == Some(cmp). Non-trivial = distinct ordered pairs.".into()
+        "boundary label set (integers at every encoding-length boundary of both signs up to the 64-bit extremes; texts of byte length 0,1,2,22-25,255-257 with first/last byte variations and multi-byte characters whose byte length differs from their char count): all ordered pairs and all triples; random pairs/triples; for the eight registry label instantiations every registered value, private-use values down to i64::MIN and texts, obtained by decoding, all pairs; BTreeSet, sort_by and CoseKey::canonicalize container monitors; equal-length texts sharing prefixes of 7-128 bytes. Oracle: cmp == bytewise comparison of independently produced deterministic encodings; cmp_canonical == (length, bytes) comparison; == iff cmp is Equal iff encodings equal; antisymmetry; transitivity; partial_cmp == Some(cmp). Non-trivial = distinct ordered pairs.".into()
     }
     fn assumptions(&self) -> Vec<String> {
         vec!["deterministic encodings are produced by the harness's own encoder (rcbor), not by ciborium".into()]
